@@ -390,7 +390,9 @@ class Reshape(ArrayExpr):
 
         # Apply slice to input, then reshape
         sliced_input = new_collection(self.array)[tuple(input_index)]
-        result = Reshape(sliced_input.expr, new_out_shape)
+        # through the front end: a target that is the sliced input's own shape
+        # or a single block (e.g. 0-d) is not a case for Reshape itself
+        result = reshape(sliced_input, new_out_shape).expr
 
         # Re-apply None insertions if any using expand_dims
         if none_positions:
